@@ -1,4 +1,4 @@
-import RulesModel.Proofs.LexAdj
+import RulesModel.Proofs.LexSigned
 /-!
 # C15 for whole rules: every rendering of a well-formed rule is read back as that rule
 
@@ -61,7 +61,7 @@ theorem pickL_mem (l : List String) (n : Nat) (h : l ≠ []) : pickL l n ∈ l :
 def allSpellings : List (Kind × String) :=
   (spSpell.map (fun s => (SP, s))) ++ (notSpell.map (fun s => (NOT, s))) ++ (commaSpell.map (fun s => (COMMA, s))) ++
   ((List.range 10).flatMap (fun i => (cmpSpell (12 + i)).map (fun s => (12 + i, s)))) ++
-  [(LP, "("), (RP, ")"), (LB, "["), (RB, "]"), (DOT, "."), (PR, "pr"), (NULL, "null")]
+  [(LP, "("), (RP, ")"), (LB, "["), (RB, "]"), (DOT, "."), (PR, "pr"), (NULL, "null"), (MINUS, "-")]
 
 /-- the table fact: each of them is the canonical token of its kind -/
 def spellOK (rules : List (Kind × Regex)) : Bool := allSpellings.all (fun p => canonB rules (tkS p.1 p.2))
@@ -96,7 +96,7 @@ def renderLit (sty : Sty) (pos : List Nat) : Lit → List Token
   | .version t => [tkS VERSION t]
   | .str t => [tkS STRING t]
   | .double t => [tkS DOUBLE t]
-  | .long _ i _ => [tkS INT i]
+  | .long neg i e => (if neg then [tkS MINUS "-"] else []) ++ [tkS INT i] ++ e.toList.map (tkS EXP)
   | .list k xs => tkS LB "[" :: renderElems sty pos k xs
 
 def render (sty : Sty) : List Nat → Tree → List Token
@@ -126,7 +126,7 @@ def wfLit (rules : List (Kind × Regex)) (cl : List Char → Bool) : Lit → Boo
   | .version t => okTok rules cl VERSION t
   | .str t => okTok rules cl STRING t
   | .double t => okTok rules cl DOUBLE t
-  | .long neg i e => !neg && e.isNone && okTok rules cl INT i
+  | .long _ i e => okTok rules cl INT i && e.all (okTok rules cl EXP)
   | .list k xs => (k == INT || k == DOUBLE || k == STRING) && !xs.isEmpty && xs.all (okTok rules cl k)
 
 def isPrimary : Tree → Bool
@@ -164,10 +164,8 @@ theorem renderLit_D (rules : List (Kind × Regex)) (cl : List Char → Bool) (st
   | str t => simpa [renderLit, toTok_tkS] using DValue.str t
   | double t => simpa [renderLit, toTok_tkS] using DValue.double t
   | long neg i e =>
-    simp only [wfLit, Bool.and_eq_true, Bool.not_eq_true', Option.isNone_iff_eq_none] at h
-    obtain ⟨⟨hn, he⟩, _⟩ := h
-    subst hn; subst he
-    simpa [renderLit, toTok_tkS] using DValue.long none i none
+    have := DValue.long (if neg then some "-" else none) i e
+    cases neg <;> cases e <;> simpa [renderLit, toTok_tkS] using this
   | list k xs =>
     simp only [wfLit, Bool.and_eq_true, Bool.or_eq_true, beq_iff_eq, Bool.not_eq_true', List.isEmpty_eq_false_iff] at h
     obtain ⟨⟨hk, hne⟩, _⟩ := h
@@ -226,16 +224,16 @@ theorem render_D (rules : List (Kind × Regex)) (cl : List Char → Bool) (sty :
 
 /-! ### every rendered token meets the per-token conditions -/
 def TokGood (rules : List (Kind × Regex)) (cl : List Char → Bool) (x : Token) : Prop :=
-  Canon rules x ∧ (x.kind = STRING → cl x.text = true) ∧ x.kind ≠ MINUS ∧ x.kind ≠ EXP
+  Canon rules x ∧ (x.kind = STRING → cl x.text = true)
 
 theorem good_spelling (rules : List (Kind × Regex)) (cl : List Char → Bool) (h : spellOK rules = true) (k : Kind) (s : String)
-    (hm : (k, s) ∈ allSpellings) (hk : k ≠ STRING ∧ k ≠ MINUS ∧ k ≠ EXP) : TokGood rules cl (tkS k s) :=
-  ⟨spell_canon rules h k s hm, fun e => absurd e hk.1, hk.2.1, hk.2.2⟩
+    (hm : (k, s) ∈ allSpellings) (hk : k ≠ STRING) : TokGood rules cl (tkS k s) :=
+  ⟨spell_canon rules h k s hm, fun e => absurd e hk⟩
 
-theorem good_okTok (rules : List (Kind × Regex)) (cl : List Char → Bool) (k : Kind) (s : String) (h : okTok rules cl k s = true)
-    (hk : k ≠ MINUS ∧ k ≠ EXP) : TokGood rules cl (tkS k s) := by
+theorem good_okTok (rules : List (Kind × Regex)) (cl : List Char → Bool) (k : Kind) (s : String) (h : okTok rules cl k s = true) :
+    TokGood rules cl (tkS k s) := by
   simp only [okTok, Bool.and_eq_true, Bool.or_eq_true, bne_iff_ne, ne_eq] at h
-  refine ⟨canon_of_canonB rules _ h.1, ?_, hk.1, hk.2⟩
+  refine ⟨canon_of_canonB rules _ h.1, ?_⟩
   intro e
   rcases h.2 with h2 | h2
   · exact absurd e h2
@@ -260,7 +258,7 @@ theorem good_optSp (rules : List (Kind × Regex)) (cl : List Char → Bool) (h :
     exact good_spelling rules cl h SP _ (sp_mem _) (by decide)
 
 theorem fixed_mem (k : Kind) (s : String)
-    (h : (k, s) ∈ [(LP, "("), (RP, ")"), (LB, "["), (RB, "]"), (DOT, "."), (PR, "pr"), (NULL, "null")]) :
+    (h : (k, s) ∈ [(LP, "("), (RP, ")"), (LB, "["), (RB, "]"), (DOT, "."), (PR, "pr"), (NULL, "null"), (MINUS, "-")]) :
     (k, s) ∈ allSpellings := by
   simp only [allSpellings, List.mem_append]
   exact .inr h
@@ -272,13 +270,13 @@ theorem good_path (rules : List (Kind × Regex)) (cl : List Char → Bool) (hsp 
     intro x hx
     simp only [renderPath, List.mem_singleton] at hx
     subst hx
-    exact good_okTok rules cl ATTR n (by simpa using h) (by decide)
+    exact good_okTok rules cl ATTR n (by simpa using h)
   | n :: m :: rest, h => by
     intro x hx
     simp only [List.all_cons, Bool.and_eq_true] at h
     simp only [renderPath, List.mem_cons] at hx
     rcases hx with hx | hx | hx
-    · subst hx; exact good_okTok rules cl ATTR n h.1 (by decide)
+    · subst hx; exact good_okTok rules cl ATTR n h.1
     · subst hx; exact good_spelling rules cl hsp DOT "." (fixed_mem _ _ (by decide)) (by decide)
     · exact good_path rules cl hsp (m :: rest) (by simpa using h.2) x hx
 
@@ -287,49 +285,55 @@ theorem comma_mem (c : Nat) : (COMMA, pickL commaSpell c) ∈ allSpellings := by
   simp only [allSpellings, List.mem_append, List.mem_map]
   exact .inl (.inl (.inr ⟨_, this, rfl⟩))
 
-theorem good_elems (rules : List (Kind × Regex)) (cl : List Char → Bool) (hsp : spellOK rules = true) (sty : Sty) (pos : List Nat) (k : Kind)
-    (hk : k ≠ MINUS ∧ k ≠ EXP) : ∀ (xs : List String), xs.all (okTok rules cl k) = true →
+theorem good_elems (rules : List (Kind × Regex)) (cl : List Char → Bool) (hsp : spellOK rules = true) (sty : Sty) (pos : List Nat) (k : Kind) :
+    ∀ (xs : List String), xs.all (okTok rules cl k) = true →
     ∀ x ∈ renderElems sty pos k xs, TokGood rules cl x
   | [], _ => by simp [renderElems]
   | [a], h => by
     intro x hx
     simp only [renderElems, List.mem_cons, List.mem_singleton, List.not_mem_nil, or_false] at hx
     rcases hx with hx | hx
-    · subst hx; exact good_okTok rules cl k a (by simpa using h) hk
+    · subst hx; exact good_okTok rules cl k a (by simpa using h)
     · subst hx; exact good_spelling rules cl hsp RB "]" (fixed_mem _ _ (by decide)) (by decide)
   | a :: b :: rest, h => by
     intro x hx
     simp only [List.all_cons, Bool.and_eq_true] at h
     simp only [renderElems, List.mem_cons] at hx
     rcases hx with hx | hx | hx
-    · subst hx; exact good_okTok rules cl k a h.1 hk
+    · subst hx; exact good_okTok rules cl k a h.1
     · subst hx; exact good_spelling rules cl hsp COMMA _ (comma_mem _) (by decide)
-    · exact good_elems rules cl hsp sty pos k hk (b :: rest) (by simpa using h.2) x hx
+    · exact good_elems rules cl hsp sty pos k (b :: rest) (by simpa using h.2) x hx
 
 theorem good_lit (rules : List (Kind × Regex)) (cl : List Char → Bool) (hsp : spellOK rules = true) (sty : Sty) (pos : List Nat) (v : Lit)
     (h : wfLit rules cl v = true) : ∀ x ∈ renderLit sty pos v, TokGood rules cl x := by
   intro x hx
   cases v with
-  | bool t => simp only [renderLit, List.mem_singleton] at hx; subst hx; exact good_okTok rules cl _ _ h (by decide)
+  | bool t => simp only [renderLit, List.mem_singleton] at hx; subst hx; exact good_okTok rules cl _ _ h
   | null =>
     simp only [renderLit, List.mem_singleton] at hx; subst hx
     exact good_spelling rules cl hsp NULL "null" (fixed_mem _ _ (by decide)) (by decide)
-  | version t => simp only [renderLit, List.mem_singleton] at hx; subst hx; exact good_okTok rules cl _ _ h (by decide)
-  | str t => simp only [renderLit, List.mem_singleton] at hx; subst hx; exact good_okTok rules cl _ _ h (by decide)
-  | double t => simp only [renderLit, List.mem_singleton] at hx; subst hx; exact good_okTok rules cl _ _ h (by decide)
+  | version t => simp only [renderLit, List.mem_singleton] at hx; subst hx; exact good_okTok rules cl _ _ h
+  | str t => simp only [renderLit, List.mem_singleton] at hx; subst hx; exact good_okTok rules cl _ _ h
+  | double t => simp only [renderLit, List.mem_singleton] at hx; subst hx; exact good_okTok rules cl _ _ h
   | long neg i e =>
     simp only [wfLit, Bool.and_eq_true] at h
-    simp only [renderLit, List.mem_singleton] at hx; subst hx
-    exact good_okTok rules cl _ _ h.2 (by decide)
+    simp only [renderLit, List.mem_append, List.mem_singleton, List.mem_map, Option.mem_toList] at hx
+    rcases hx with (hx | hx) | ⟨a, ha, hx⟩
+    · cases neg with
+      | false => simp at hx
+      | true =>
+        simp only [if_true, List.mem_singleton] at hx; subst hx
+        exact good_spelling rules cl hsp MINUS "-" (fixed_mem _ _ (by decide)) (by decide)
+    · subst hx; exact good_okTok rules cl _ _ h.1
+    · subst hx; subst ha
+      exact good_okTok rules cl _ _ (by simpa using h.2)
   | list k xs =>
     simp only [wfLit, Bool.and_eq_true, Bool.or_eq_true, beq_iff_eq] at h
-    obtain ⟨⟨hk, _⟩, hall⟩ := h
-    have hk' : k ≠ MINUS ∧ k ≠ EXP := by
-      rcases hk with (h1 | h1) | h1 <;> subst h1 <;> decide
+    obtain ⟨_, hall⟩ := h
     simp only [renderLit, List.mem_cons] at hx
     rcases hx with hx | hx
     · subst hx; exact good_spelling rules cl hsp LB "[" (fixed_mem _ _ (by decide)) (by decide)
-    · exact good_elems rules cl hsp sty pos k hk' xs hall x hx
+    · exact good_elems rules cl hsp sty pos k xs hall x hx
 
 theorem cmp_mem (k : Nat) (hk : isCmp k = true) (c : Nat) : (k, pickL (cmpSpell k) c) ∈ allSpellings := by
   have hk' : 12 ≤ k ∧ k ≤ 21 := by simpa [isCmp] using hk
@@ -378,7 +382,7 @@ theorem render_good (rules : List (Kind × Regex)) (cl : List Char → Bool) (hs
     rcases hx with (hx | hx | hx | hx) | hx
     · exact ihl (8 :: pos) hl x hx
     · subst hx; exact good_sp rules cl hsp _
-    · subst hx; exact good_okTok rules cl LOGOP op ho (by decide)
+    · subst hx; exact good_okTok rules cl LOGOP op ho
     · subst hx; exact good_sp rules cl hsp _
     · exact ihr (9 :: pos) hr x hx
   | present p =>
@@ -393,9 +397,9 @@ theorem render_good (rules : List (Kind × Regex)) (cl : List Char → Bool) (hs
     intro pos h x hx
     simp only [wf, wfPath, Bool.and_eq_true] at h
     obtain ⟨⟨⟨_, hp⟩, hk⟩, hv⟩ := h
-    have hk3 : k ≠ STRING ∧ k ≠ MINUS ∧ k ≠ EXP := by
+    have hk3 : k ≠ STRING := by
       simp only [isCmp, Bool.and_eq_true, decide_eq_true_eq] at hk
-      refine ⟨?_, ?_, ?_⟩ <;> (intro e; subst e; revert hk; decide)
+      intro e; subst e; revert hk; decide
     simp only [render, List.mem_append, List.mem_cons, List.not_mem_nil, or_false] at hx
     rcases hx with (hx | hx | hx | hx) | hx
     · exact good_path rules cl hsp p hp x hx
@@ -406,23 +410,31 @@ theorem render_good (rules : List (Kind × Regex)) (cl : List Char → Bool) (hs
 
 /-! ### the theorems -/
 
+/-- the facts about the table the round trip needs. For the table regenerated on this run the first two are evaluated by
+the kernel (`adj_separated_all`, `int_follow`); the third is proved in `Proofs/C15SignedTable.lean` from the shapes of the
+INT, DOUBLE and VERSION rules -/
+structure TableOK (rules : List (Kind × Regex)) : Prop where
+  adj : adjTableOKS rules = true
+  follow : intFollowOK rules = true
+  signed : SignedOK rules
+
 /-- **Every rendering of a well-formed rule is read back as that rule.** -/
-theorem C15_render (rules : List (Kind × Regex)) (htab : adjTableOK rules = true) (hsp : spellOK rules = true)
+theorem C15_render (rules : List (Kind × Regex)) (htab : TableOK rules) (hsp : spellOK rules = true)
     (t : Tree) (h : wf rules (extClosed rules) t = true) (sty : Sty) :
     lexParse rules (text (render sty [] t)) = some t := by
   have hd := (render_D rules (extClosed rules) sty t [] h).1
   have hg := render_good rules (extClosed rules) hsp sty t [] h
-  exact lexParse_tokens rules htab (render sty [] t) t hd (fun x hx => (hg x hx).1) (fun x hx => (hg x hx).2.1)
-    (fun x hx => (hg x hx).2.2)
+  exact lexParse_tokensQ rules htab.adj htab.follow htab.signed (render sty [] t) t hd (fun x hx => (hg x hx).1)
+    (fun x hx hk => closedP_of_ext rules _ ((hg x hx).2 hk))
 
 /-- any two styles of one rule are read as the same tree … -/
-theorem C15_render_styles (rules : List (Kind × Regex)) (htab : adjTableOK rules = true) (hsp : spellOK rules = true)
+theorem C15_render_styles (rules : List (Kind × Regex)) (htab : TableOK rules) (hsp : spellOK rules = true)
     (t : Tree) (h : wf rules (extClosed rules) t = true) (sty sty' : Sty) :
     lexParse rules (text (render sty [] t)) = lexParse rules (text (render sty' [] t)) := by
   rw [C15_render rules htab hsp t h sty, C15_render rules htab hsp t h sty']
 
 /-- … and therefore have the same outcome – verdict or failure, diagnostic, Stringer calls – on every object -/
-theorem C15_render_process (rules : List (Kind × Regex)) (htab : adjTableOK rules = true) (hsp : spellOK rules = true)
+theorem C15_render_process (rules : List (Kind × Regex)) (htab : TableOK rules) (hsp : spellOK rules = true)
     (t : Tree) (h : wf rules (extClosed rules) t = true) (sty sty' : Sty) (lower : Bytes → Bytes) (item : List (Bytes × Value)) :
     (lexParse rules (text (render sty [] t))).map (fun tr => processTree lower tr item) =
     (lexParse rules (text (render sty' [] t))).map (fun tr => processTree lower tr item) := by
@@ -432,9 +444,10 @@ theorem C15_render_process (rules : List (Kind × Regex)) (htab : adjTableOK rul
 theorem spell_table : spellOK Generated.lexerRules = true := by decide +kernel
 
 /-- … so for the shipped grammar: -/
-theorem C15_render_generated (t : Tree) (h : wf Generated.lexerRules (extClosed Generated.lexerRules) t = true) (sty : Sty) :
+theorem C15_render_generated (hsig : SignedOK Generated.lexerRules) (t : Tree)
+    (h : wf Generated.lexerRules (extClosed Generated.lexerRules) t = true) (sty : Sty) :
     lexParse Generated.lexerRules (text (render sty [] t)) = some t :=
-  C15_render Generated.lexerRules adj_separated spell_table t h sty
+  C15_render Generated.lexerRules ⟨adj_separated_all, int_follow, hsig⟩ spell_table t h sty
 
 /-- non-vacuity: a rule with every construct (negation, nesting, paths, all literal kinds, lists) is well-formed, and two
 different styles really produce different texts -/
@@ -444,7 +457,7 @@ def sample : Tree :=
       (.paren true (.compare ["name"] 19 (.str "\"Ann \\\"B\\\"\"")))
       (.compare ["a", "b-c", "d"] 12 (.list DOUBLE ["1.5", "-2.0e3", "0.25"])))
     (.paren false (.logical "and" (.present ["x", "y"])
-      (.paren true (.logical "or" (.compare ["v"] 17 (.version "1.2.3")) (.compare ["n"] 14 (.long false "42" none))))))
+      (.paren true (.logical "and" (.logical "or" (.compare ["v"] 17 (.version "1.2.3")) (.compare ["n"] 14 (.long false "42" none))) (.compare ["m", "k"] 16 (.long true "120" (some "e+3")))))))
 
 example : wf Generated.lexerRules (extClosed Generated.lexerRules) sample = true := by decide +kernel
 example : text (render (fun _ => 0) [] sample) ≠ text (render (fun p => p.length + 1) [] sample) := by decide +kernel
